@@ -6,7 +6,8 @@
    every history on three fresh instances in two processes. *)
 From Coq Require Import List NArith Sorting.Permutation.
 From RV Require Import Irc.Str Irc.State Irc.Cmds Irc.Apply.
-From RV Require Import IrcProofs.Top IrcProofs.Misc.
+From Coq Require Import Strings.String.
+From RV Require Import IrcProofs.Top IrcProofs.Misc IrcProofs.Determinism.
 
 Theorem C01_model_deterministic : forall e sv es r1 r2, run e sv es = r1 -> run e sv es = r2 -> r1 = r2.
 Proof. exact model_deterministic. Qed.
@@ -15,3 +16,17 @@ Print Assumptions C01_model_deterministic.
 Theorem C01_recipients_order_independent : forall l l', Permutation l l' -> set_of_ids l = set_of_ids l'.
 Proof. exact recipients_order_independent. Qed.
 Print Assumptions C01_recipients_order_independent.
+
+(* listings built from a map (NAMES, WHO, WHOIS channel list, LIST, ban list, SERVER burst) are sorted: whatever
+   order the keys are traversed in, the listing is the same *)
+Theorem C01_listings_order_independent : forall l l', Permutation l l' -> sort_strings l = sort_strings l'.
+Proof. exact sort_strings_order_independent. Qed.
+Print Assumptions C01_listings_order_independent.
+
+(* loops over a map that only mutate state apply an update that commutes with itself (delete this nick from every
+   channel, rename it in every channel, …): the resulting state does not depend on the traversal order *)
+Theorem C01_bulk_updates_order_independent : forall (A S : Type) (f : A -> S -> S),
+  (forall a b s, f a (f b s) = f b (f a s)) ->
+  forall l l', Permutation l l' -> forall s, fold_right f s l = fold_right f s l'.
+Proof. exact @fold_commutative_order_independent. Qed.
+Print Assumptions C01_bulk_updates_order_independent.
